@@ -494,7 +494,7 @@ def st_history_config(max_groups: int = 3, max_params: int = 4, max_numel: int =
         ng = draw(st.sampled_from([1, 1, 1, 2, 3][: 2 + max_groups]))
         ng = min(ng, max_groups)
         groups = []
-        gscale = draw(st.sampled_from([1.0, 1.0, 1.0, 1e-3, 1e3, 0.1, 30.0]))
+        gscale = draw(st.sampled_from([1.0, 1.0, 1.0, 1e-3, 1e3, 0.1, 30.0, 1e-5]))
         for gi in range(ng):
             cfg = draw(gen.st_config(gscale=gscale, **cfg_kwargs))
             npar = draw(st.integers(1, max_params))
